@@ -5,12 +5,16 @@ import os
 import re
 
 from vlib import sched, sigreal
-from vlib.sigcheck import (PLANS, SGN, SIGINT, SIGTSTP, TRUSTED, accept_all, analyse, detect_worker_form, explore_sig,
+from vlib.sigcheck import (PLANS, SGN, SIGINT, SIGTSTP, TRUSTED, accept_all, analyse, detect_shutdown_form, detect_worker_form, explore_sig,
                            gen_case, offenders, pack, plan_signals, project_sig)
 
 
-def assumptions(variant, wform="blind"):
-    return ["form of the worker's first state write in the checked tree, detected by behaviour on the minimal "
+def assumptions(variant, wform="blind", sform="pinned"):
+    return ["form of the shutdown of dsh() in the checked tree, detected by behaviour: %s (pinned = the watchdog touches no "
+            "protocol object and runs on; stopwdog = the repair of F07-STALEID: the watchdog takes thd_mutex around each "
+            "slot and dsh() cancels and joins it before it cancels the signals thread; model, acceptor and theorems cover "
+            "both)" % sform,
+            "form of the worker's first state write in the checked tree, detected by behaviour on the minimal "
             "lost-cancel schedule: %s (blind = `a->state = DSH_RCMD` as pinned, defect F20-LOSTCANCEL; guarded = the "
             "repair; model, acceptor and theorems cover both)" % wform,
             "POSIX semantics of pthread_mutex_lock/unlock, pthread_cond_wait/signal (spurious wake-ups allowed) and "
@@ -80,7 +84,7 @@ def base_key(case):
     return json.dumps([case["fanout"], case["hosts"], sorted((case.get("opts") or {}).items())], sort_keys=True)
 
 
-def replay_case(ctx, exe, variant, wform):
+def replay_case(ctx, exe, variant, wform, sform):
     rp = json.load(open(ctx.replay))
     case = (rp.get("case") or {}).get("case") or rp.get("case")
     if not isinstance(case, dict) or "hosts" not in case:
@@ -100,7 +104,7 @@ def replay_case(ctx, exe, variant, wform):
     _, bf = offenders(b, None)
     offs, facts = offenders(res, (b["M"], bf["A"]) if b["M"] and "A" in bf else None)
     if res["crash"] is None and not res["bug"] and facts["domain"]:
-        bad = accept_all(ctx, [project_sig(res, variant, wform)])[0]
+        bad = accept_all(ctx, [project_sig(res, variant, wform, sform)])[0]
         if bad is not None:
             ctx.disagreement("Signals LTS (%s, %s worker) vs dsh.c" % (variant, wform),
                              "projected trace line %d `%s`: %s" % (bad[0], bad[1], bad[2]), pack(res, facts))
@@ -136,9 +140,9 @@ def run(ctx, PROPS, LEVEL):
     dist = {"plans": {}, "episodes": {}, "status": {}, "rejects": 0, "out_of_domain": 0, "dfs": [], "positions": [],
             "yield": {}, "N": {}, "batch": {"0": 0, "1": 0}}
     cov["distribution"] = dist
-    variant, wform = None, "blind"
+    variant, wform, sform = None, "blind", "pinned"
     if not (exe_san and exe):
-        return variant, wform, cov
+        return variant, wform, sform, cov
     variant, probe = sched.detect_variant(exe, ctx.scratch)
     if variant is None:
         ctx.disagreement("fan variant probe", "the dispatcher neither re-waits nor creates after a spurious wake-up")
@@ -151,12 +155,18 @@ def run(ctx, PROPS, LEVEL):
                          " | ".join(" ".join(ev) for _, ev in wprobe["steps"])[-700:])
         wform = "blind"
     cov["source_worker_state_write"] = wform
-    ctx.log("wait-for-room construct of the tree (by behaviour): %s; worker's first state write: %s" % (variant, wform))
+    sform, sprobe = detect_shutdown_form(exe, ctx.scratch)
+    if sform is None:
+        ctx.disagreement("shutdown form probe", "dsh() neither leaves the watchdog running without joining it (pinned) nor "
+                         "joins it before it returns (F07-STALEID repair): M=%s" % (sprobe.get("M"),))
+        sform = "pinned"
+    cov["source_shutdown"] = sform
+    ctx.log("wait-for-room construct of the tree (by behaviour): %s; worker's first state write: %s; shutdown: %s" % (variant, wform, sform))
     if ctx.replay:
-        replay_case(ctx, exe_san, variant, wform)
+        replay_case(ctx, exe_san, variant, wform, sform)
         cov["evaluations"] = 1
         cov["rule"] = "replay of one recorded schedule"
-        return variant, wform, cov
+        return variant, wform, sform, cov
 
     rng = ctx.rng
     distinct = set()
@@ -188,7 +198,7 @@ def run(ctx, PROPS, LEVEL):
                 ok = False
                 dist["out_of_domain"] += 1
             doms.append(ok)
-        batches = [project_sig(r, variant, wform) if ok else None for r, ok in zip(results, doms)]
+        batches = [project_sig(r, variant, wform, sform) if ok else None for r, ok in zip(results, doms)]
         idx = [i for i, b in enumerate(batches) if b is not None]
         verdicts = accept_all(ctx, [batches[i] for i in idx]) if idx else []
         for i, bad in zip(idx, verdicts):
@@ -256,7 +266,7 @@ def run(ctx, PROPS, LEVEL):
             if len(buf) >= 1200:
                 consume(buf[:], "dfs")
                 del buf[:]
-        st = explore_sig(exe, ctx.scratch, basec, plan, on, max_runs=9000 if ctx.quick() else 250000, stop=enough)
+        st = explore_sig(exe, ctx.scratch, basec, plan, on, max_runs=4000 if ctx.quick() else 250000, stop=enough)
         consume(buf, "dfs")
         st.update({"config": name, "plan": "-".join(SGN[x] for x in plan), "batch": batch})
         dist["dfs"].append(st)
@@ -382,4 +392,4 @@ def run(ctx, PROPS, LEVEL):
     cov["distinct_nontrivial"] = len(distinct)
     cov["traces_validated_against_impl"] = cov["evaluations"] - dist["out_of_domain"]
     cov["offending_runs"] = dict(seen)
-    return variant, wform, cov
+    return variant, wform, sform, cov
